@@ -689,25 +689,34 @@ def ghost_check(case, impl, mv):
 # ---------------------------------------------------------------- driver
 
 def run_cases(chk, cases, name="C16"):
+    """every call into the implementation is guarded: an exception on a generated (legal) history is a concrete failing input"""
+    import traceback
+
     impls = []
     for c in cases:
         try:
             impls.append(run_impl(c))
         except Exception as e:
-            impls.append({"crash": f"{type(e).__name__}: {e}", "obs": []})
+            impls.append({"crash": f"{type(e).__name__}: {e}", "traceback": traceback.format_exc()[-2500:], "obs": []})
     vals = common.coq_eval_many(name, HEADER, [model_expr(c) for c in cases], shard=40, procs=4)
     results = []
     for c, im, mv in zip(cases, impls, vals):
         if im.get("crash"):
-            results.append(([("oracle-crash", im["crash"])], []))
+            results.append(([("oracle-implementation-raised", "add() / sample() / truncate / pickle raised on a legal history: " + im["crash"])], []))
             continue
         try:
             orc = oracle(c, im)
         except Exception as e:
-            orc = [("oracle-crash", f"{type(e).__name__}: {e}")]
-        mod = compare_model(c, im, mv)
-        if not mod:
-            mod = ghost_check(c, im, mv)
+            im["traceback"] = traceback.format_exc()[-2500:]
+            orc = [("oracle-unexpected-value", f"the recorded samples contain a value the oracle cannot interpret: {type(e).__name__}: {e}")]
+        try:
+            mod = compare_model(c, im, mv)
+            if not mod:
+                mod = ghost_check(c, im, mv)
+        except Exception as e:
+            im["traceback"] = traceback.format_exc()[-2500:]
+            mod = []
+            orc = orc + [("oracle-unexpected-value", f"comparison with the model failed on the recorded values: {type(e).__name__}: {e}")]
         results.append((orc, mod))
     return impls, results
 
@@ -804,9 +813,21 @@ def main():
     n_corpus = len(cases)
     for i in range(n_cases):
         cases.append(gen_case(chk.rng, i))
-    for sig, msg in api_guards():
-        chk.violation(sig, msg, {"fixed_input": "harness/c16.py api_guards()"}, found_input=True)
-    bad = share_check()
+    import traceback
+
+    try:
+        guards = api_guards()
+    except Exception as e:
+        guards = [("oracle-implementation-raised", f"constructing / pickling / adding to / sampling a 4-slot HerReplayBuffer raised {type(e).__name__}: {e}")]
+        chk.notes["api_guards_traceback"] = traceback.format_exc()[-2500:]
+    for sig, msg in guards:
+        chk.violation(sig, msg, {"fixed_input": "harness/c16.py api_guards()", "traceback": chk.notes.get("api_guards_traceback")}, found_input=True)
+    try:
+        bad = share_check()
+    except Exception as e:
+        bad = []
+        chk.violation("oracle-implementation-raised", f"HerReplayBuffer(2 slots, n_sampled_goal=1..64) construction raised {type(e).__name__}: {e}",
+                      {"fixed_input": "harness/c16.py share_check()", "traceback": traceback.format_exc()[-2500:]}, found_input=True)
     if bad:
         chk.violation("oracle-relabelled-share-float", f"int(her_ratio * B) != floor(n*B/(n+1)) for (n, B, code, law) = {bad[:5]}", {"mismatches": bad[:50]}, found_input=True)
     new = 0
@@ -841,7 +862,7 @@ def main():
             if nontrivial(c, im):
                 distinct.add((c["buffer_size"], c["n_envs"], c["strategy"], c["hto"], c["copy_info"], c["n_sampled_goal"]))
             if orc:
-                chk.violation(orc[0][0], "; ".join(m for _, m in orc[:3]), {"case": c, "problems": orc[:10], "model_disagreements": mod[:5]}, found_input=True)
+                chk.violation(orc[0][0], "; ".join(m for _, m in orc[:3]), {"case": c, "problems": orc[:10], "model_disagreements": mod[:5], "traceback": im.get("traceback")}, found_input=True)
                 new += 1
             elif mod:
                 chk.violation("model-correspondence-" + mod[0][0], "; ".join(m for _, m in mod[:3]),
